@@ -123,15 +123,22 @@ EncDictForm(es, form) ==
   CatMap(es, LAMBDA e : CatMap(e.args, LAMBDA a : IF a.t = "r" THEN EncOperand(a) ELSE EncIntForm(a.v, form))
                         \o EncOperator(e.op))
 
-RECURSIVE DecDictFrom(_, _, _)
-DecDictFrom(bs, at, acc) ==       \* acc: operands collected for the next operator
+\* operands from position `at` up to the next operator (or the end / a malformed token); the recursion over
+\* the entries is separate from the one over the operands of an entry, so that its depth is the number of
+\* entries (a 64 KiB DICT has thousands of operands)
+RECURSIVE DecOperands(_, _, _)
+DecOperands(bs, at, acc) ==
   LET k == Tok(bs, at) IN
-  CASE k.t = "eof" -> IF acc = <<>> THEN <<>> ELSE <<[op |-> -1, args |-> acc]>>      \* dangling operands
-    [] k.t = "bad" -> <<[op |-> -2, args |-> acc]>>
-    [] k.t = "op"  -> <<[op |-> k.v, args |-> AsOffsets(k.v, acc)]>> \o DecDictFrom(bs, at + k.n, <<>>)
-    [] k.t = "i"   -> DecDictFrom(bs, at + k.n, Append(acc, I(k.v)))
-    [] k.t = "r"   -> DecDictFrom(bs, at + k.n, Append(acc, Rl(k.v)))
-DecDict(bs) == DecDictFrom(bs, 0, <<>>)
+  IF k.t = "i" THEN DecOperands(bs, at + k.n, Append(acc, I(k.v)))
+  ELSE IF k.t = "r" THEN DecOperands(bs, at + k.n, Append(acc, Rl(k.v)))
+  ELSE [args |-> acc, at |-> at, k |-> k]
+RECURSIVE DecDictFrom(_, _)
+DecDictFrom(bs, at) ==
+  LET r == DecOperands(bs, at, <<>>) IN
+  CASE r.k.t = "eof" -> IF r.args = <<>> THEN <<>> ELSE <<[op |-> -1, args |-> r.args]>>      \* dangling operands
+    [] r.k.t = "bad" -> <<[op |-> -2, args |-> r.args]>>
+    [] r.k.t = "op"  -> <<[op |-> r.k.v, args |-> AsOffsets(r.k.v, r.args)]>> \o DecDictFrom(bs, r.at + r.k.n)
+DecDict(bs) == DecDictFrom(bs, 0)
 
 \* a writer may keep a default-valued entry, never invent or reorder entries
 RECURSIVE IsSubSeq(_, _)
@@ -258,6 +265,166 @@ DecIVS(bs) ==
                                              <<RI16(bs, a), RI16(bs, a + 2), RI16(bs, a + 4)>>]],
           data |-> [i \in 1 .. n |-> full(i)]]]
 
+\* ---- a whole CFF table (one font) ------------------------------------------------------
+\* The CFF writer is a two-pass writer: it reserves the Top DICT INDEX from a size computed in advance
+\* (the offSize of that INDEX depends on the length of the Top DICT data), writes String INDEX, Global
+\* Subr INDEX, CharStrings, charset, Private DICTs, Font DICT INDEX behind the reservation and fills the
+\* reservation last, with the offsets it learned on the way.  The table as a value:
+\*   [names, top, strs, gs, cs, sids, priv, hasLs, ls, fds, fdsel]
+\*   names, strs, gs, cs, ls : byte strings (objects of the Name / String / Global Subr / CharStrings /
+\*                             Local Subr INDEX)
+\*   top, priv               : DICT entries WITHOUT the entries that locate other structures
+\*   sids                    : <<>> = predefined charset 0 (ISOAdobe), else the format 0 charset
+\*   hasLs                   : the Private DICT has a Subrs entry (ls may be empty all the same)
+\*   fds                     : <<>> for a name-keyed font; CID-keyed: [fd, priv, hasLs, ls] per Font DICT
+\*                             (then top starts with ROS and sids are the CIDs), fdsel one fd per glyph
+\* Dev_CffLayout: where the structures lie is the writer's business; DecCff follows the offsets.  The
+\* encoder below is ONE layout (the order of TN 5176's example); every offset is written in the five-byte
+\* form so that no size depends on an offset.
+OffsetOps == {OpCharset, OpEncoding, OpCharStrings, OpPrivate, OpSubrs, OpFDArray, OpFDSelect}
+NonOffsetEntries(es) == SelectSeq(es, LAMBDA e : e.op \notin OffsetOps)
+DE(op, args) == [op |-> op, args |-> args]
+IndexData(objs) == SumSeq(MapS(objs, Len))
+IndexBytes(objs) == EncIndex(objs, IF objs = <<>> THEN 1 ELSE MinOffSize(1 + IndexData(objs)), FALSE)
+IndexLen(objs) == IF objs = <<>> THEN 2 ELSE 3 + MinOffSize(1 + IndexData(objs)) * (Len(objs) + 1) + IndexData(objs)
+
+PrivDictBytes(p, hasLs) ==
+  LET body == EncDict(p) IN IF hasLs THEN body \o EncOperand(O(Len(body) + 6)) \o EncOperator(OpSubrs) ELSE body
+PrivBlock(p, hasLs, ls) == PrivDictBytes(p, hasLs) \o (IF hasLs THEN IndexBytes(ls) ELSE <<>>)
+CharsetBytes(sids) == IF sids = <<>> THEN <<>> ELSE EncCharset([fmt |-> 0, sids |-> sids])
+
+TopEntries(v, charsetOff, csOff, a, b) ==      \* a, b: Private (size, offset)  or  FDArray, FDSelect offsets
+  v.top \o (IF v.sids = <<>> THEN <<>> ELSE <<DE(OpCharset, <<O(charsetOff)>>)>>)
+  \o <<DE(OpCharStrings, <<O(csOff)>>)>>
+  \o (IF v.fds = <<>> THEN <<DE(OpPrivate, <<O(a), O(b)>>)>>
+      ELSE <<DE(OpFDArray, <<O(a)>>), DE(OpFDSelect, <<O(b)>>)>>)
+TopDictLen(v) == Len(EncDict(TopEntries(v, 0, 0, 0, 0)))
+FdEntries(f, size, off) == f.fd \o <<DE(OpPrivate, <<O(size), O(off)>>)>>
+
+EncCff(v) ==
+  LET tl     == TopDictLen(v)
+      topLen == 3 + 2 * MinOffSize(tl + 1) + tl
+      nameI  == IndexBytes(v.names)  strI == IndexBytes(v.strs)  gsI == IndexBytes(v.gs)  csI == IndexBytes(v.cs)
+      chs    == CharsetBytes(v.sids)
+      csOff  == 4 + Len(nameI) + topLen + Len(strI) + Len(gsI)
+      chOff  == csOff + Len(csI)
+      after  == chOff + Len(chs) IN
+  IF v.fds = <<>>
+  THEN LET pb  == PrivBlock(v.priv, v.hasLs, v.ls)
+           top == EncDict(TopEntries(v, chOff, csOff, Len(PrivDictBytes(v.priv, v.hasLs)), after)) IN
+       <<1, 0, 4, 1>> \o nameI \o IndexBytes(<<top>>) \o strI \o gsI \o csI \o chs \o pb
+  ELSE LET fdsel  == EncFdSelect([fmt |-> 0, fds |-> v.fdsel])
+           blocks == [i \in 1 .. Len(v.fds) |-> PrivBlock(v.fds[i].priv, v.fds[i].hasLs, v.fds[i].ls)]
+           pOff   == Pref(MapS(blocks, Len), 1, after + Len(fdsel))
+           fdd    == [i \in 1 .. Len(v.fds) |->
+                        EncDict(FdEntries(v.fds[i], Len(PrivDictBytes(v.fds[i].priv, v.fds[i].hasLs)), pOff[i]))]
+           fdaOff == after + Len(fdsel) + SumSeq(MapS(blocks, Len))
+           top    == EncDict(TopEntries(v, chOff, csOff, fdaOff, after)) IN
+       <<1, 0, 4, 1>> \o nameI \o IndexBytes(<<top>>) \o strI \o gsI \o csI \o chs \o fdsel \o Cat(blocks) \o IndexBytes(fdd)
+
+\* -- decoding by following the structure
+IndexAt(bs, at) == IF at < 0 \/ at + 2 > Len(bs) THEN [ok |-> FALSE, objs |-> <<>>, size |-> 0, offSize |-> 0]
+                   ELSE DecIndex(SubSeq(bs, at + 1, Len(bs)), FALSE)
+DictArgs(es, op) == LET ks == {i \in 1 .. Len(es) : es[i].op = op} IN
+                    IF ks = {} THEN <<>> ELSE es[CHOOSE i \in ks : \A j \in ks : i <= j].args
+DictWellFormed(es) == \A i \in 1 .. Len(es) : es[i].op >= 0
+\* a Private DICT at (size, off) with its local subroutines: [ok, priv, hasLs, ls]
+PrivAt(bs, size, off) ==
+  IF size < 0 \/ off < 0 \/ off + size > Len(bs) THEN [ok |-> FALSE, priv |-> <<>>, hasLs |-> FALSE, ls |-> <<>>]
+  ELSE LET es == DecDict(RB(bs, off, size))  sa == DictArgs(es, OpSubrs) IN
+       IF ~DictWellFormed(es) THEN [ok |-> FALSE, priv |-> <<>>, hasLs |-> FALSE, ls |-> <<>>]
+       ELSE IF sa = <<>> THEN [ok |-> TRUE, priv |-> NonOffsetEntries(es), hasLs |-> FALSE, ls |-> <<>>]
+       ELSE LET li == IndexAt(bs, off + sa[1].v) IN
+            [ok |-> li.ok, priv |-> NonOffsetEntries(es), hasLs |-> TRUE, ls |-> li.objs]
+CffBad == [ok |-> FALSE, v |-> <<>>, topLen |-> -1, topOffSize |-> -1]
+DecCff(bs) ==
+  IF Len(bs) < 4 THEN CffBad ELSE
+  LET i1 == IndexAt(bs, bs[3]) IN IF ~i1.ok THEN CffBad ELSE
+  LET a2 == bs[3] + i1.size  i2 == IndexAt(bs, a2) IN IF ~i2.ok \/ Len(i2.objs) # 1 THEN CffBad ELSE
+  LET a3 == a2 + i2.size  i3 == IndexAt(bs, a3) IN IF ~i3.ok THEN CffBad ELSE
+  LET a4 == a3 + i3.size  i4 == IndexAt(bs, a4) IN IF ~i4.ok THEN CffBad ELSE
+  LET top == DecDict(i2.objs[1]) IN IF ~DictWellFormed(top) \/ DictArgs(top, OpCharStrings) = <<>> THEN CffBad ELSE
+  LET cs == IndexAt(bs, DictArgs(top, OpCharStrings)[1].v) IN IF ~cs.ok THEN CffBad ELSE
+  LET n    == Len(cs.objs)
+      cha  == DictArgs(top, OpCharset)
+      sids == IF cha = <<>> \/ cha[1].v <= 2 THEN <<>>
+              ELSE IF cha[1].v >= Len(bs) \/ bs[cha[1].v + 1] # 0 THEN <<-1>>         \* the writers at hand keep format 0
+              ELSE DecCharset(SubSeq(bs, cha[1].v + 1, Len(bs)), n).sids
+      pa   == DictArgs(top, OpPrivate)
+      fa   == DictArgs(top, OpFDArray)
+      fsa  == DictArgs(top, OpFDSelect) IN
+  IF fa = <<>>
+  THEN IF Len(pa) # 2 THEN CffBad ELSE
+       LET p == PrivAt(bs, pa[1].v, pa[2].v) IN IF ~p.ok THEN CffBad ELSE
+       [ok |-> TRUE, topLen |-> Len(i2.objs[1]), topOffSize |-> i2.offSize,
+        v |-> [names |-> i1.objs, top |-> NonOffsetEntries(top), strs |-> i3.objs, gs |-> i4.objs, cs |-> cs.objs,
+               sids |-> sids, priv |-> p.priv, hasLs |-> p.hasLs, ls |-> p.ls, fds |-> <<>>, fdsel |-> <<>>]]
+  ELSE IF fsa = <<>> THEN CffBad ELSE
+       LET fda == IndexAt(bs, fa[1].v) IN IF ~fda.ok THEN CffBad ELSE
+       LET fdd == [i \in 1 .. Len(fda.objs) |-> DecDict(fda.objs[i])] IN
+       IF \E i \in 1 .. Len(fdd) : ~DictWellFormed(fdd[i]) \/ Len(DictArgs(fdd[i], OpPrivate)) # 2 THEN CffBad ELSE
+       LET ps == [i \in 1 .. Len(fdd) |-> PrivAt(bs, DictArgs(fdd[i], OpPrivate)[1].v, DictArgs(fdd[i], OpPrivate)[2].v)] IN
+       IF \E i \in 1 .. Len(ps) : ~ps[i].ok THEN CffBad ELSE
+       [ok |-> TRUE, topLen |-> Len(i2.objs[1]), topOffSize |-> i2.offSize,
+        v |-> [names |-> i1.objs, top |-> NonOffsetEntries(top), strs |-> i3.objs, gs |-> i4.objs, cs |-> cs.objs,
+               sids |-> sids, priv |-> <<>>, hasLs |-> FALSE, ls |-> <<>>,
+               fds |-> [i \in 1 .. Len(fdd) |-> [fd |-> NonOffsetEntries(fdd[i]), priv |-> ps[i].priv,
+                                                 hasLs |-> ps[i].hasLs, ls |-> ps[i].ls]],
+               fdsel |-> IF fsa[1].v >= Len(bs) \/ bs[fsa[1].v + 1] # 0 THEN <<-1>>
+                         ELSE DecFdSelect(SubSeq(bs, fsa[1].v + 1, Len(bs)), n).fds]]
+
+\* equality of two table values: DICTs up to the declared normalisation (entries equal to their
+\* defaults may be dropped), everything else exactly
+DictSame(kind, a, b) == EntriesEq(NormDict(kind, a), NormDict(kind, b))
+CffEq(a, b) ==
+  /\ a.names = b.names /\ a.strs = b.strs /\ a.gs = b.gs /\ a.cs = b.cs /\ a.sids = b.sids
+  /\ DictSame("top", a.top, b.top) /\ DictSame("priv", a.priv, b.priv)
+  /\ a.hasLs = b.hasLs /\ a.ls = b.ls /\ a.fdsel = b.fdsel
+  /\ Len(a.fds) = Len(b.fds)
+  /\ \A i \in 1 .. Len(a.fds) : /\ DictSame("font", a.fds[i].fd, b.fds[i].fd) /\ DictSame("priv", a.fds[i].priv, b.fds[i].priv)
+                                /\ a.fds[i].hasLs = b.fds[i].hasLs /\ a.fds[i].ls = b.fds[i].ls
+
+\* what a reader reports of a table without shipping it: per object (length, first byte, last byte,
+\* byte sum mod 65521); per DICT the operators of its non-locating entries; the strings the Top DICT's
+\* SID operands (version, Notice, FullName, FamilyName, Weight) resolve to
+BytesFact(o) == IF o = <<>> THEN <<0, 0, 0, 0>> ELSE <<Len(o), o[1], o[Len(o)], SumSeq(o) % 65521>>
+FactsOf(objs) == MapS(objs, BytesFact)
+OpsOf(es) == MapS(es, LAMBDA e : e.op)
+SidOps == {0, 1, 2, 3, 4}
+SidFact(v, sid) == IF sid < 391 THEN <<-1, 0, 0, 0>>
+                   ELSE IF sid - 390 <= Len(v.strs) THEN BytesFact(v.strs[sid - 390]) ELSE <<-2, 0, 0, 0>>
+CffFacts(v) ==
+  LET nt == NormDict("top", v.top) IN
+  [names |-> FactsOf(v.names), strs |-> FactsOf(v.strs), gs |-> FactsOf(v.gs), cs |-> FactsOf(v.cs),
+   sids |-> v.sids, topops |-> OpsOf(nt),
+   sidstr |-> MapS(SelectSeq(nt, LAMBDA e : e.op \in SidOps /\ Len(e.args) = 1 /\ e.args[1].t = "i"),
+                   LAMBDA e : SidFact(v, e.args[1].v)),
+   privs |-> IF v.fds = <<>> THEN <<[ops |-> OpsOf(NormDict("priv", v.priv)), hasLs |-> v.hasLs, ls |-> FactsOf(v.ls)]>>
+             ELSE [i \in 1 .. Len(v.fds) |-> [ops |-> OpsOf(NormDict("priv", v.fds[i].priv)), hasLs |-> v.fds[i].hasLs,
+                                              ls |-> FactsOf(v.fds[i].ls)]],
+   fdops |-> [i \in 1 .. Len(v.fds) |-> OpsOf(NormDict("font", v.fds[i].fd))],
+   fdsel |-> v.fdsel]
+
 ---------------------------------------------------------------------------
-CffKinds == {"cffint", "dict", "index", "charset", "encoding", "fdselect", "ivs"}
+\* ---- the parts of an item variation store on their own -----------------------------------
+\* ItemVariationData: [items, wdc, ris, deltas] (EncIvsData); the only layout there is
+DecIvsData(bs) ==
+  IF Len(bs) < 6 THEN [ok |-> FALSE, v |-> <<>>, size |-> 0]
+  ELSE LET n == RU16(bs, 4)  w == RU16(bs, 2) IN
+  IF 6 + 2 * n > Len(bs) THEN [ok |-> FALSE, v |-> <<>>, size |-> 0]
+  ELSE LET ris == ArrU16(bs, 6, n)
+           dl  == RU16(bs, 0) * IvsRowLen([wdc |-> w, ris |-> ris]) IN
+  IF 6 + 2 * n + dl > Len(bs) THEN [ok |-> FALSE, v |-> <<>>, size |-> 0]
+  ELSE [ok |-> TRUE, size |-> 6 + 2 * n + dl,
+        v |-> [items |-> RU16(bs, 0), wdc |-> w, ris |-> ris, deltas |-> RB(bs, 6 + 2 * n, dl)]]
+\* rows a reader can hand out: one per item (rows of length zero are indistinguishable: any index has one)
+IvdRows(d, probes) == IF IvsRowLen(d) = 0 THEN probes ELSE d.items
+\* VariationRegionList: [axes, regions]
+DecIvsRegions(bs) ==
+  LET ax == RU16(bs, 0)  nr == RU16(bs, 2) IN
+  [axes |-> ax,
+   regions |-> [r \in 1 .. nr |-> [j \in 1 .. ax |-> LET a == 4 + 6 * (ax * (r - 1) + (j - 1)) IN
+                                      <<RI16(bs, a), RI16(bs, a + 2), RI16(bs, a + 4)>>]]]
+
+CffKinds == {"cffint", "dict", "index", "charset", "encoding", "fdselect", "ivs", "ivd", "ivr", "cfft"}
 =============================================================================
